@@ -383,10 +383,19 @@ fn build_race(seed: u64, case: u64) -> Race {
 }
 
 fn run_race(run: &Run, rc: &Race, case: u64, plan: &Plan) {
+    run_race_with(run, rc, case, plan, None)
+}
+
+/// `fault`: the second backup's write of its BANDHEAD fails once with this kind.
+fn run_race_with(run: &Run, rc: &Race, case: u64, plan: &Plan, fault: Option<conserve::transport::ErrorKind>) {
     let arch = rc.world.sc.fresh("race");
     fmt06::copy_dir(&rc.world.arch, &arch);
     let before = fmt06::dir_bytes(&arch);
     let s = Sched::new(&arch, &[A1, A2]);
+    if let Some(kind) = fault {
+        s.set_fault(A2, V::Write, "*BANDHEAD", 0, kind);
+        run.count("race_schedules_run_with_a_fault_on_a_bandhead_write", 1);
+    }
     let (src1, src2, opts) = (rc.world.src.clone(), rc.src2.clone(), rc.opts);
     let body = |src: std::path::PathBuf| -> crate::sched::ActorBody<conserve::BackupStats> {
         Box::new(move |t, m| {
@@ -409,8 +418,11 @@ fn run_race(run: &Run, rc: &Race, case: u64, plan: &Plan) {
     let log = s.log();
     let sig: String = log.iter().map(|e| format!("{}{}", e.actor, e.verb.name().len())).collect();
     run.nontrivial(fnv(format!("{case}|{sig}").as_bytes()));
-    let replay = json!({"race": true, "case": case, "plan": plan.to_json(), "scenario": rc.desc,
+    let mut replay = json!({"race": true, "case": case, "plan": plan.to_json(), "scenario": rc.desc,
         "grants": log.iter().map(|e| e.brief()).collect::<Vec<_>>()});
+    if let Some(kind) = fault {
+        replay["bandhead_fault"] = json!(crate::icept::kind_name(kind));
+    }
     run.count(&format!("race_outcome_{}_{}", if o1.ok() { "ok" } else { "err" }, if o2.ok() { "ok" } else { "err" }), 1);
     let result = (|| -> Result<(), (String, String)> {
         for (who, o) in [(A1, &o1), (A2, &o2)] {
@@ -705,8 +717,23 @@ pub fn run(tier: Tier, replay: Option<Value>) -> i32 {
                             run.count("schedules_skipped_by_time_budget", 1);
                             continue;
                         }
-                        if let Err(m) = crate::report::guard(|| run_race(&run, &rc, case, &plans[i])) {
-                            run.inconclusive(format!("harness error in race schedule: {m}"));
+                        let replay_fault = replay.as_ref().and_then(|r| r.get("bandhead_fault")).and_then(|k| k.as_str()).map(String::from);
+                        if replay_fault.is_none() {
+                            if let Err(m) = crate::report::guard(|| run_race(&run, &rc, case, &plans[i])) {
+                                run.inconclusive(format!("harness error in race schedule: {m}"));
+                            }
+                        }
+                        // the first scenario once more with the second backup's BANDHEAD write failing
+                        // once: with a connection error (the kind a remote store gives) and an unspecific one
+                        if case == 0 && (replay.is_none() || replay_fault.is_some()) {
+                            for kind in [conserve::transport::ErrorKind::Connect, conserve::transport::ErrorKind::Other] {
+                                if replay_fault.is_some() && replay_fault.as_deref() != Some(crate::icept::kind_name(kind)) {
+                                    continue;
+                                }
+                                if let Err(m) = crate::report::guard(|| run_race_with(&run, &rc, case, &plans[i], Some(kind))) {
+                                    run.inconclusive(format!("harness error in race schedule: {m}"));
+                                }
+                            }
                         }
                     });
                 }
@@ -719,10 +746,10 @@ pub fn run(tier: Tier, replay: Option<Value>) -> i32 {
         }
     }
     let needs: &[(&str, u64)] = if replay.is_some() { &[] } else {
-        &[("collector_race_schedules_run", 200), ("collector_races_with_a_refused_collector", 20), ("backup_mutating_ops_checked", 200), ("delete_mutating_ops_checked", 20), ("interrupted_or_torn_backups", 5), ("race_schedules_run", 50), ("races_on_the_same_band_id", 5), ("steps_on_archives_with_more_than_10000_hunks_in_a_band", 3)]
+        &[("collector_race_schedules_run", 200), ("race_schedules_run_with_a_fault_on_a_bandhead_write", 100), ("collector_races_with_a_refused_collector", 20), ("backup_mutating_ops_checked", 200), ("delete_mutating_ops_checked", 20), ("interrupted_or_torn_backups", 5), ("race_schedules_run", 50), ("races_on_the_same_band_id", 5), ("steps_on_archives_with_more_than_10000_hunks_in_a_band", 3)]
     };
     run.finish(
-        "part 1: histories as in C02, with backups killed at a random operation incl. torn writes, then resumed; the interceptor records for every mutating storage operation the actor, verb, write mode, payload hash and the pre/post state of the target read directly from disk; rules: a backup issues only create_dir and CreateNew writes, never removes, a successful write's target was absent or zero-length, a write onto a non-empty file fails and leaves it unchanged, no path is written twice, every earlier file is byte-identical afterwards (zero-length leftovers may be completed), the new band id exceeds every existing id; delete/gc removes only requested band directories, blocks that an independent reference scan of the kept bands does not reference, and its own GC_LOCK (with someone else's GC_LOCK in place a delete, gc or dry run must leave every file, that lock included, as it is); one history (backup, change, backup, gc, delete newest, gc) runs on a tree of 10 040 files with one entry per hunk, so that the kept versions have hunks in two index subdirectories. part 2: two concurrent backups of differing sources under the deterministic scheduler (all schedules with <=1 preemption, a grid / all of 2 preemptions, random 3-6 switches): same rules on the merged log, each band directory written by one actor only, same id chosen by both => exactly one returns Ok, every complete version whose backup reported no error restores its own source. part 3: a gc and a delete of the oldest version race for the lock on one archive under the scheduler (all schedules with <= 1 preemption, all pairs of early switch points and a grid of later ones): on the merged log a GC_LOCK is written only while nobody else holds it, removed only by its holder, and band directories and blocks are removed only by the holder; afterwards no kept version has a dangling reference. Distinct = history text / grant sequence.",
+        "part 1: histories as in C02, with backups killed at a random operation incl. torn writes, then resumed; the interceptor records for every mutating storage operation the actor, verb, write mode, payload hash and the pre/post state of the target read directly from disk; rules: a backup issues only create_dir and CreateNew writes, never removes, a successful write's target was absent or zero-length, a write onto a non-empty file fails and leaves it unchanged, no path is written twice, every earlier file is byte-identical afterwards (zero-length leftovers may be completed), the new band id exceeds every existing id; delete/gc removes only requested band directories, blocks that an independent reference scan of the kept bands does not reference, and its own GC_LOCK (with someone else's GC_LOCK in place a delete, gc or dry run must leave every file, that lock included, as it is); one history (backup, change, backup, gc, delete newest, gc) runs on a tree of 10 040 files with one entry per hunk, so that the kept versions have hunks in two index subdirectories. part 2: two concurrent backups of differing sources under the deterministic scheduler (all schedules with <=1 preemption, a grid / all of 2 preemptions, random 3-6 switches): same rules on the merged log, each band directory written by one actor only, same id chosen by both => exactly one returns Ok, every complete version whose backup reported no error restores its own source. The first race scenario is run once more under every schedule with the second backup's BANDHEAD write failing once (a connection error, an unspecific error). part 3: a gc and a delete of the oldest version race for the lock on one archive under the scheduler (all schedules with <= 1 preemption, all pairs of early switch points and a grid of later ones): on the merged log a GC_LOCK is written only while nobody else holds it, removed only by its holder, and band directories and blocks are removed only by the holder; afterwards no kept version has a dangling reference. Distinct = history text / grant sequence.",
         &["pre/post states are read while the issuing actor is the only one running", "schedules beyond the preemption bound are sampled"],
         Some(false),
         needs,
